@@ -13,14 +13,18 @@ SOCK_TRUSTED = [
     "parameter: QUrl (validity, path(), query items) — theorems hold for every value, the concrete value comes from Qt through the harness",
 ]
 
+PARSER_TRUSTED = [
+    "translated from the C++ on every run (tools/cxx2lean.py): Parser::split, parseHeaderList, parseHeaders, parseRequestHeaders, parseResponseHeaders of parser.cpp as pure functions (reference parameters returned, `fuel` bounding the loop of split) in the vocabulary Cxx.indexOfFrom / mid / size / count / nth / takeFirst of Qhttp/Model/CxxPrim.lean (trusted); bridge theorems QhttpBridge.Parser prove each equal to the model's function for every input and every fuel above the length of the data (split: non-empty delimiter, maxSplit >= 0 - every call site), and that the vocabulary entry Cxx.parseRequestHeaders used by the translated socket.cpp is the translated parser function (cxx_parseRequestHeaders); a function outside the translated subset is replaced by the model's (listed in QhttpGen.Parser.untranslated) and then rests on the scenario comparison only",
+]
+
 PROPS = {
-    "C01": {"count": {"quick": 3000, "thorough": 60000}, "trusted": SOCK_TRUSTED,
+    "C01": {"count": {"quick": 3000, "thorough": 60000}, "trusted": SOCK_TRUSTED + PARSER_TRUSTED,
             "rule": "grammar-driven request heads (valid, near-miss, malformed, tiny-alphabet lines) x segmentations, through a Socket on SimTcp with `snap` at headersParsed; distinct = distinct token strings; non-trivial = at least one segment delivered"},
-    "C02": {"count": {"quick": 2500, "thorough": 60000}, "trusted": SOCK_TRUSTED,
+    "C02": {"count": {"quick": 2500, "thorough": 60000}, "trusted": SOCK_TRUSTED + PARSER_TRUSTED,
             "rule": "accepted heads with Content-Length N x bodies (CRLFCRLF planted, sizes across the 16 KiB QIODevice chunk) x trailing data x segmentations (byte-wise, around the head/body edge, random) x reader policies"},
     "C03": {"count": {"quick": 2500, "thorough": 50000}, "trusted": SOCK_TRUSTED,
             "rule": "random response API histories (status, replace/append headers over a case-variant name pool, whole maps with repeated names, explicit/implicit head, body chunks to 70 000 bytes, error/redirect/JSON), acknowledgements, post-close calls"},
-    "C04": {"count": {"quick": 2500, "thorough": 40000}, "trusted": SOCK_TRUSTED,
+    "C04": {"count": {"quick": 2500, "thorough": 40000}, "trusted": SOCK_TRUSTED + PARSER_TRUSTED,
             "rule": "rejected heads x segmentations x number of segments buffered before construction x trailing data x late events"},
     "C17": {"count": {"quick": 500, "thorough": 8000},
             "trusted": ["observed, not modelled: file modes and umask (stat(2)), the home directory, QJsonDocument (the file is represented by its top-level keys), QUuid (token distinctness across instances is QUuid's property; the harness checks a previous instance's token is refused)",
@@ -55,11 +59,11 @@ PROPS = {
                 "observed, not proved: memory safety of the compiled code and of Qt — every scenario of every family runs under ASan+UBSan (-fno-sanitize-recover); a sanitizer abort, failed assertion or hang is an observation (`crash`) and fails the predicate"],
             "rule": "random event sequences for the socket: pre-buffered data, construction, segments of valid / malformed / random heads and random bytes, acknowledgements, peer disconnects, event-loop turns and every API call from idle context, with random re-entrant reactions (API calls made from inside headersParsed / readyRead / readChannelFinished / bytesWritten / disconnected); the whole observation history is compared with the model"},
     "C12": {"count": {"quick": 500, "thorough": 8000},
-            "trusted": SOCK_TRUSTED + ["the upstream side is a real QTcpSocket over loopback to a harness-owned QTcpServer; a `turn` runs the event loop until nothing moves, so timing only decides which modelled interleaving is exercised (connected before/after body segments)",
+            "trusted": SOCK_TRUSTED + PARSER_TRUSTED + ["the upstream side is a real QTcpSocket over loopback to a harness-owned QTcpServer; a `turn` runs the event loop until nothing moves, so timing only decides which modelled interleaving is exercised (connected before/after body segments)",
                                         "modelled, not verified: QUrl::toPercentEncoding, QHostAddress::toString, QAbstractSocket buffering of writes made before `connected`"],
             "rule": "methods x targets (escaped reserved characters, space, CR LF, '?', '#', '%', non-ASCII, query strings) x header sets (duplicates, pre-existing X-Forwarded-For / X-Real-IP) x bodies of 0..40 bytes x segmentations x position of the event-loop turns (body before / after the upstream connection)"},
     "C13": {"count": {"quick": 500, "thorough": 8000},
-            "trusted": SOCK_TRUSTED + ["as C12; upstream segmentation is enforced by write+flush followed by a turn on loopback"],
+            "trusted": SOCK_TRUSTED + PARSER_TRUSTED + ["as C12; upstream segmentation is enforced by write+flush followed by a turn on loopback"],
             "rule": "scripted upstream: status 100..599 and out of range, reasons incl. empty, header multisets with repeats and padding, bodies 0..700 bytes (also starting with a blank line), every kind of cut incl. inside the head and at the head/body edge; faults: connection refused, close after k bytes of the head, close after the response, late data after close"},
     "C14": {"count": {"quick": 3500, "thorough": 40000},
             "trusted": ["modelled, not verified: QBuffer/QFile read/seek/pos/atEnd, QIODevice::write refusing a negative length, QTimer::singleShot(0) = one pending call per event-loop turn; the harness devices (MemSrc, SeqSrc, LogDest) stand for QFile / sockets"],
@@ -139,6 +143,11 @@ SOCK_ALL = _sock("SetStatusCode", "SetHeader", "SetHeaders", "WriteHeaders", "Wr
 RANGE_ALL = ["QhttpBridge.Range.Base"] + ["QhttpBridge.Range." + n for n in ("IsValid", "From", "To", "Length", "DataSize", "Ctor3", "CtorResize")]
 PROXY_ALL = ["QhttpBridge.Proxy.Base"] + ["QhttpBridge.Proxy." + n for n in ("OnUpstreamError", "OnUpstreamReadyRead", "OnDownstreamReadyRead")]
 
+# parser.cpp: ONE module, with no entry in BRIDGE_NEEDS on purpose: every theorem of QhttpBridge.Parser is proved for the translated
+# function AND for the model's stand-in the translator emits for a function outside its subset (`first | stand-in | translated`
+# scripts; the `_run` theorems carry the hypothesis `… ∉ QhttpGen.Parser.untranslated`), so the module is never skipped.
+PARSER_ALL = ["QhttpBridge.Parser"]
+
 BRIDGE_NEEDS = {
     "QhttpBridge.Sock.SetStatusCode": ["Socket::setStatusCode"], "QhttpBridge.Sock.SetHeader": ["Socket::setHeader"],
     "QhttpBridge.Sock.SetHeaders": ["Socket::setHeaders"], "QhttpBridge.Sock.WriteHeaders": ["Socket::writeHeaders"],
@@ -166,14 +175,14 @@ BRIDGE_NEEDS = {
 BRIDGES = {
     "C16": RANGE_ALL,
     "C18": ["QhttpBridge.Ack"] + SOCK_ALL,
-    "C01": ["QhttpBridge.Tables"] + SOCK_ALL,
-    "C02": SOCK_ALL,
+    "C01": ["QhttpBridge.Tables"] + SOCK_ALL + PARSER_ALL,
+    "C02": SOCK_ALL + PARSER_ALL,
     "C03": ["QhttpBridge.Tables"] + SOCK_ALL,
-    "C04": SOCK_ALL,
+    "C04": SOCK_ALL + PARSER_ALL,
     "C11": SOCK_ALL,
     "C19": SOCK_ALL,
-    "C12": PROXY_ALL,
-    "C13": PROXY_ALL,
+    "C12": PROXY_ALL + PARSER_ALL,
+    "C13": PROXY_ALL + PARSER_ALL,
     "C14": ["QhttpBridge.Copier"],
     "C08": ["QhttpBridge.Copier"] + RANGE_ALL,
 }
